@@ -44,7 +44,11 @@ class Subject:
     def __init__(self, seed, arch=None, small=False, families=None, mean_units=None, forced=None, form=None, typable=False, sp=None, respell=False):
         rng = random.Random(seed)
         self.seed = seed
-        self.ast = gen.make_molecule(rng, arch, small=small, families=families, mean_units=mean_units, form=form, typable=typable, respell=respell)
+        if arch == "hostile_h":
+            self.ast = gen.arch_hostile_h(gen.Ctx(rng, small=True, form=form), families, mean_units)
+        else:
+            self.ast = gen.make_molecule(rng, arch, small=small, families=families, mean_units=mean_units, form=form, typable=typable, respell=respell)
+        self.hostile_h = arch == "hostile_h"
         self.targets = {}
         if forced is not None:
             for k, e in enumerate(self.ast.elements):
